@@ -284,7 +284,12 @@ impl VrlValueArithmetic for Value {
         use Value::{Float, Integer};
 
         match self {
-            Integer(lhv) => rhs.try_into_f64().is_ok_and(|rhv| *lhv as f64 == rhv),
+            Integer(lhv) => match rhs {
+                // two integers are compared exactly: going through f64 would equate
+                // distinct values above 2^53
+                Integer(rhv) => lhv == rhv,
+                _ => rhs.try_into_f64().is_ok_and(|rhv| *lhv as f64 == rhv),
+            },
 
             Float(lhv) => rhs.try_into_f64().is_ok_and(|rhv| lhv.into_inner() == rhv),
 
